@@ -202,6 +202,10 @@ def run(ctx, pid):
         for f in rot(["CANCUN", "BERLIN", "HOMESTEAD"], 1 if q else 3):
             r = planned("c01nested_" + f, f, [193, 194], P_NESTED)
             replay(ctx, res, r, "c01nested_" + f, binary)
+        # code deposit that the create frame cannot afford: creates below calls with 700 / 40000 gas
+        for f in (rot(["FRONTIER", "HOMESTEAD", "SPURIOUS_DRAGON", "LONDON"], 2) if q else ["FRONTIER", "HOMESTEAD", "SPURIOUS_DRAGON", "BERLIN", "LONDON", "PRAGUE"]):
+            r = planned("c01deposit_" + f, f, [193, 194], [(194, ["createS"]), (193, ["callS"])])
+            replay(ctx, res, r, "c01deposit_" + f, binary)
         for f in (["CANCUN"] + rot(["BYZANTIUM", "PRAGUE", "LONDON", "ISTANBUL"], 1) if q else ["BYZANTIUM", "ISTANBUL", "LONDON", "CANCUN", "PRAGUE"]):
             r = planned("c01rdata_" + f, f, [193, 194], P_RDATA)
             replay(ctx, res, r, "c01rdata_" + f, binary)
